@@ -21,7 +21,9 @@ type EnumCase struct {
 	Consts    []NamedValue
 	Marshal   func(uint64) (string, error)
 	Unmarshal func(string) (uint64, error)
-	String    func(uint64) string
+	// UnmarshalInto parses into a destination that already holds a value (optional)
+	UnmarshalInto func(prefill uint64, text string) (uint64, error)
+	String        func(uint64) string
 }
 
 // Finding is a violation found by a probe.
@@ -118,6 +120,18 @@ func CheckEnum(c EnumCase, seed uint64, nRandom int, otherNames []string, res *E
 			res.find(fmt.Sprintf("enum=%s value=%d what=roundtrip", c.Name, v),
 				fmt.Sprintf("value %d renders as %q which parses back to %d", v, text, back), map[string]interface{}{"value": v, "text": text, "back": back})
 			return text, false
+		}
+		if c.UnmarshalInto != nil {
+			// parsing does not depend on what the destination held before
+			for _, pre := range []uint64{^uint64(0), 0x5555555555555555, v ^ 0xFF} {
+				b2, err := c.UnmarshalInto(pre, text)
+				if err != nil || b2 != v {
+					res.find(fmt.Sprintf("enum=%s value=%d what=roundtrip", c.Name, v),
+						fmt.Sprintf("text %q parsed into a variable already holding %d gives %d (err %v), expected %d", text, pre, b2, err, v),
+						map[string]interface{}{"value": v, "text": text, "prefill": pre})
+					return text, false
+				}
+			}
 		}
 		if s := c.String(v); s != text {
 			res.find(fmt.Sprintf("enum=%s value=%d what=render", c.Name, v), fmt.Sprintf("String() = %q but MarshalText = %q", s, text), v)
